@@ -142,6 +142,14 @@ fn forged_kbs(a: &Session, hk: Hk) -> Vec<KbItem> {
     add("valid_aud_array_containing", base_hdr.clone(), with(&base_pl, "aud", json!(["other", AUDS[0]])), &h1, alg, "h1", true);
     add("valid_no_iat", base_hdr.clone(), without(&base_pl, "iat"), &h1, alg, "h1", true);
     add("valid_exp_past", base_hdr.clone(), with(&base_pl, "exp", json!(now - 86400)), &h1, alg, "h1", true);
+    // iat of every numeric / non-numeric shape: freshness is not asserted, but nothing may panic
+    for (lab, v) in [("0", json!(0)), ("neg", json!(-1)), ("frac", json!(1.5)), ("str", json!("now")), ("2p63", json!(9223372036854775808u64)), ("u64max", json!(u64::MAX)), ("1e300", json!(1e300)), ("null", Value::Null), ("arr", json!([1])), ("future", json!(now + 10 * 365 * 86400))] {
+        add(&format!("valid_iat_{lab}"), base_hdr.clone(), with(&base_pl, "iat", v), &h1, alg, "h1", true);
+    }
+    for (lab, v) in [("exp_u64max", json!(u64::MAX)), ("exp_2p63", json!(9223372036854775808u64)), ("exp_neg", json!(-1)), ("exp_str", json!("x")), ("nbf_u64max", json!(u64::MAX))] {
+        let key = if lab.starts_with("exp") { "exp" } else { "nbf" };
+        add(&format!("valid_{lab}"), base_hdr.clone(), with(&base_pl, key, v), &h1, alg, "h1", true);
+    }
     // typ
     add("typ_absent", without(&base_hdr, "typ"), base_pl.clone(), &h1, alg, "h1", true);
     add("typ_JWT", with(&base_hdr, "typ", json!("JWT")), base_pl.clone(), &h1, alg, "h1", true);
@@ -407,6 +415,12 @@ pub fn lists_for(j: &Session) -> Vec<(String, Vec<String>)> {
     let mut f = j.s_big.clone();
     f.insert(0, made_up);
     push("S'_plus_foreign_prepended", f);
+    // the empty string as an extra "disclosure" (jwt~d1~~d2~kb), at every position
+    for at in 0..=j.s_big.len() {
+        let mut f = j.s_big.clone();
+        f.insert(at, String::new());
+        push(&format!("S'_plus_empty_string_at_{at}"), f);
+    }
     out
 }
 
@@ -498,7 +512,8 @@ fn run_world(rep: &Report, hk: Hk, issuer_alg: Alg) {
 
 // ---- aud / nonce string alphabet: honest presentations must be accepted for every (aud, nonce) pair
 fn string_alphabet(rep: &Report) {
-    let strs = ["a", "", "https://v.example", "\u{f1}", "xxxxxxxxxxxxxxxxxxxxxxxxxxxxxxxxxxxxxxxxxxxxxxxxxxxxxxxxxxxxxxxx", "a b", "\"", "~", "a.b", "\u{1F600}"];
+    let strs = ["[\"https://v.example\"]", "[\"a\",\"b\"]", "{}", "null", "true", "1", "\"a\"", "a,b", "*",
+        "a", "", "https://v.example", "\u{f1}", "xxxxxxxxxxxxxxxxxxxxxxxxxxxxxxxxxxxxxxxxxxxxxxxxxxxxxxxxxxxxxxxx", "a b", "\"", "~", "a.b", "\u{1F600}"];
     let mut items = vec![];
     for a in strs {
         for n in strs {
@@ -544,7 +559,7 @@ fn string_alphabet(rep: &Report) {
             }
         }
     });
-    rep.scope_done(json!({"scope": "aud x nonce string alphabet (10 x 10) x 2 formats x 2 holder key types: honest accepted, off-by-one-character expectation rejected"}));
+    rep.scope_done(json!({"scope": "aud x nonce string alphabet (19 x 19) x 2 formats x 2 holder key types: honest accepted, off-by-one-character expectation rejected"}));
 }
 
 // ---- E2: every single-character edit of an honest KB-JWT
